@@ -24,9 +24,16 @@ fixed = [
  ("C01", "b2eebef", "mirror_covariance_matrix: bitwise OR of float32 triangles gave arbitrary values / indefinite matrix (relative error 3e3 at wavelength scale 0.0158, 1e-6 at SI scales)"),
  ("C11", "db0148c", "twoStepFresnel output point-reflected for every magnification != 1 (off-axis Gaussian beam error 0.99 vs 1e-15 after repair)"),
  ("C10", "fb0ee06", "twoStepFresnel(U, wvl, d, d, numpy.float64(z)) returned NaN (m == 1 relied on ZeroDivisionError)"),
+ ("C15", "e34c2d2", "correlation_centroid zero-shift position for odd sizes depended on the padding (4, 4.5, 4 for 9x9 with padding 1, 2, 3)"),
  ("C08", "23b1b66", "structure_function_vk(0, r0, L0) and stf_vonKarman(0, L0) returned NaN instead of 0"),
 ]
 open_ = [
+ {"property": "C15", "mechanism": "centre_of_gravity:stack_vs_frame:thresholded",
+  "what": "centre_of_gravity with a threshold: the 2-D path subtracts the threshold, the N-D (stack) path zeroes below it, so a stack differs from frame-by-frame processing (e.g. 0.07-0.17 px)",
+  "why_not_repaired": "which of the two semantics is intended is a maintainer decision (docstring says 'zero', correlation_centroid relies on 'subtract'); each path is still checked against its own reference"},
+ {"property": "C15", "mechanism": "quadCell:scale_invariance",
+  "what": "quadCell returns un-normalised differences, so its output scales with the image instead of being invariant",
+  "why_not_repaired": "normalising changes the scale of the returned signal, an API decision"},
  {"property": "C09", "mechanism": "irft:roundtrip_shape:odd",
   "what": "irft(rft(x)) cannot return an odd-length signal: the API has no length argument, the inverse has N-1 samples (e.g. N=47 -> 46)",
   "why_not_repaired": "needs an API change (an explicit length / parity argument)"},
